@@ -823,7 +823,7 @@ func genAnchorDoc(g *Rng) string {
 }
 
 // mergesOpenAnchor: some merge key names (directly or in a list) the mapping it sits in or one of the
-// collections enclosing it.  Before fix <COMMIT> DeAnchor did not notice (fix 46c2be4 covered aliases in value
+// collections enclosing it.  Before fix 2965816 DeAnchor did not notice (fix 46c2be4 covered aliases in value
 // position only): it returned nonsense or never returned, growing without bound — such documents are run in a
 // child process only, and must be refused.
 func mergesOpenAnchor(n *kyaml.Node, open map[*kyaml.Node]bool) bool {
@@ -982,7 +982,7 @@ func deanchorOne(r *Run, s string, fixed bool) {
 	selfMerge := mergesOpenAnchor(orig.YNode(), map[*kyaml.Node]bool{})
 	if selfRef || selfMerge {
 		// a node that contains itself, through an alias in value position (fix 46c2be4) or under a merge key
-		// (fix <COMMIT>): verdict from a child process — without the fixes DeAnchor overflows the stack / never
+		// (fix 2965816): verdict from a child process — without the fixes DeAnchor overflows the stack / never
 		// returns and eats memory.  The model says Err whatever else the document holds.
 		fin, pout := deanchorProbe(s)
 		class, what := "C13/deanchor-self-reference-not-refused", "self reference (child process)"
@@ -1056,7 +1056,7 @@ func deanchorCases(r *Run, rng *Rng, n int) {
 		fin, out := pr.fin, pr.out
 		r.AddEval("deanchor-probe", false)
 		if !fin || strings.Contains(out, "fatal error") || strings.Contains(out, "out of memory") {
-			r.Violation(OracleViolation{Law: "terminates", Class: "C13/deanchor-merge-of-open-anchor", Detail: "REGRESSION of fix <COMMIT>: DeAnchor does not return (memory grows without bound) on a merge key naming an enclosing anchor: " + doc,
+			r.Violation(OracleViolation{Law: "terminates", Class: "C13/deanchor-merge-of-open-anchor", Detail: "REGRESSION of fix 2965816: DeAnchor does not return (memory grows without bound) on a merge key naming an enclosing anchor: " + doc,
 				Replay: map[string]string{"kind": "deanchor-probe", "s": doc}})
 		} else if !strings.Contains(out, "PROBE err=") || strings.Contains(out, "PROBE err=<nil>") {
 			r.Violation(OracleViolation{Law: "anchors_expanded", Class: "C13/deanchor-merge-of-open-anchor", Detail: "DeAnchor accepted a merge key naming an enclosing anchor: " + out,
